@@ -316,6 +316,32 @@ def run(ctx, rep):
             tr = dl.of_local(0)
             if ('field', 'len') not in tr or any(tk[0] in ('op', 'call') for tk in tr):
                 probs.append('len() does not return the stored length unchanged')
+        # R19.5 the fixed array holds stale units past `len`: nothing observes it as a whole (a derived comparison / hash of the
+        # struct would), only through the prefix `as_ucs2_units` exposes - what the Vec-backed variant holds is exactly that prefix
+        whole = []
+        for n_, f_ in other.fns.items():
+            if f_.crate != 'fatfs':
+                continue
+            for b_, t_ in f_.calls():
+                c_ = t_.get('callee') or ''
+                if not c_.endswith(('PartialEq::eq', 'PartialEq::ne', 'Hash::hash', 'PartialOrd::partial_cmp', 'Ord::cmp')):
+                    continue
+                for a_ in t_['args'][:2]:
+                    pa_ = op_place(a_)
+                    ty_ = f_.local_ty(pa_['l']) if pa_ is not None and not pa_['p'] else None
+                    for _ in range(2):
+                        if ty_ is not None and ty_.get('k') in ('ref', 'ptr'):
+                            ty_ = f_.types[ty_['to']]
+                    if ty_ is not None and ty_.get('k') == 'array' and buf is not None and ty_.get('len') == buf:
+                        el_ = f_.types[ty_['of']]
+                        if el_.get('k') == 'int' and el_.get('bits') == 16:
+                            whole.append((n_, f_.loc(t_['span'])))
+        rep.oblige('R19.5', 'fixed buffer observed as a whole', ok=not whole, nontrivial=True, sample={'sites': whole[:3]})
+        if whole:
+            rep.violation('R19.5', vkey('R19.5', whole[0][0], 'whole-array', ''), whole[0][1],
+                          '%s compares / hashes the whole fixed long-name array: units past the current length are stale (whatever the '
+                          'previous names left there), so two buffers holding the same name differ - the build with `alloc` compares '
+                          'exactly the name' % whole[0][0])
         rep.oblige('R19.3', 'fixed-buffer length bookkeeping', ok=not probs, nontrivial=True)
         if probs:
             rep.violation('R19.3', vkey('R19.3', 'fatfs::dir::LfnBuffer', 'length-identity', ''), 'src/dir.rs',
